@@ -119,3 +119,17 @@ Theorem C01_bytes_round_trip_single :
     flat_events r = flat_map event_of_triple (d_stmts d) /\ pr_end r = PEnd.
 Proof. exact triples_bytes_round_trip_single. Qed.
 Print Assumptions C01_bytes_round_trip_single.
+
+(* ---- non-vacuity: a concrete stream (prefix table of 2 with a slot re-assigned by an explicit id,
+   typed and language-tagged literals, repeated terms, frames of 2 rows) meets every hypothesis of the
+   whole-stream theorems of C01 / C03 / C06 / C19 ---- *)
+From PJ.Proofs Require Import AudStmt AudStream NonVacuity.
+Theorem C01_premises_are_satisfiable :
+  exists s s' evs,
+    stream_new TripleStream Generic ex_opts = Ok s /\ cfg_ok ex_opts (st_logical s) /\
+    p_nd (so_params ex_opts) = false /\ fl_rows (st_flow s) = [] /\
+    triples_stream_frames ex_data s = (s', evs) /\ raised evs = None /\
+    Forall small (emitted evs) /\ stmts_nrm ex_stmts /\
+    (3 <= length (emitted evs))%nat /\ In (RPrefix 2 [104; 116; 116; 112; 58; 47; 47; 99; 47]%N) (flat_map f_rows (emitted evs)).
+Proof. exact whole_stream_premises_satisfiable. Qed.
+Print Assumptions C01_premises_are_satisfiable.
